@@ -142,6 +142,27 @@ def _u3r():
     return _U3
 
 
+# Matrices that a gate definition may hand out as the SAME stored array on every call (the way
+# `ideal_unitary=lambda: SX` does).  The library gets _STORED[name]; the reference side and
+# the "unchanged" oracle use _PRISTINE, which never leaves this module.
+def _pristine():
+    return {"H": np.array(_h(), dtype=complex), "Hs": np.array(_hs(), dtype=complex), "CX": np.array(_cx(), dtype=complex), "CCX": np.array(_ccx(), dtype=complex), "U3r": np.array(_U3, dtype=complex)}
+
+
+_PRISTINE = _pristine()
+_STORED = {k: v.copy() for k, v in _PRISTINE.items()}
+
+
+def stored_changed():
+    """Names of stored matrices that no longer hold what they were created with."""
+    return sorted(k for k in _PRISTINE if not np.array_equal(_STORED[k], _PRISTINE[k]))
+
+
+def restore_stored():
+    for k in _PRISTINE:
+        _STORED[k][...] = _PRISTINE[k]
+
+
 _MATS = {
     "Rx": _rx,
     "Ry": _ry,
@@ -178,7 +199,9 @@ def _shifted(fn, argv, shift):
 
 def matrix(name, nums):
     """Reference-side matrix of a gate at its classical arguments."""
-    return np.asarray(_shifted(_MATS[name], nums, REF_SHIFT.get(name, 0)), dtype=complex)
+    if name in _PRISTINE:
+        return _PRISTINE[name].copy()
+    return np.array(_shifted(_MATS[name], nums, REF_SHIFT.get(name, 0)), dtype=complex)
 
 
 def base_name(name):
@@ -206,7 +229,7 @@ def all_gate_names(idle=True):
     return names
 
 
-def build_gateset(idle=True, style="direct", shift=0):
+def build_gateset(idle=True, style="direct", shift=0, stored=False):
     """Real jaqalpaq definitions over the synthetic matrices (import inside: the caller
     decides which jaqalpaq source tree is on sys.path).  style="copied" derives gates of
     equal signature from one another through the public AbstractGate.copy(), the way
@@ -225,6 +248,8 @@ def build_gateset(idle=True, style="direct", shift=0):
             cb = CALLBACK
             if cb is not None:
                 cb(_name, argv)
+            if stored and _name in _STORED:
+                return _STORED[_name]  # the same array object on every call
             return _shifted(_fn, argv, shift)
 
         unitary.__qualname__ = "simgate_" + name
